@@ -12,7 +12,9 @@ CFG = dict(
                    "fetch.Fetch every created or moved ref points at a stored commit whose whole history is stored "
                    "(C09_fetch_closed); the same on the remote after a push (C09_push_closed, RefsResolve + Closed "
                    "preserved); refs are written after the last object write (C09_refs_after_objects + "
-                   "C09_fetch_skel_tie on the call order re-read from fetch.Fetch); a repeated fetch wants nothing and "
+                   "C09_fetch_skel_tie on the call order re-read from fetch.Fetch); under ANY single lost response "
+                   "(connection abort or HTTP/2 reset with fetch's retry) the same closure holds and an unfinished session "
+                   "writes no ref (C09_fetch_faults, C09_push_faults); a repeated fetch wants nothing and "
                    "writes nothing (C09_idempotent_objects / _refs); session bookkeeping (C09_pop_haves, C09_negotiate). "
                    "Depth clause only PARTIAL (C09_fetch_depth_partial / C09_tables_partial under the named premise "
                    "SrvDepth = C08_depth + C07) with two refutation witnesses = the two known findings "
@@ -28,7 +30,15 @@ CFG = dict(
         rule="witnesses: depth x want-order (parent/child refs at depth 1,2,0; chain of 5 commits with a ref on each = "
              "deterministic witness of the known finding; two tips sharing a near/far ancestor), max packfile size 1 with "
              "table batches {0,1,256} x k {256,1,2} (fetch) and pack.maxFileSize=1 (push), push to an empty remote with a "
-             "tag; random (220 quick / 5000 thorough): a common random history of 0..5 commits (merges, 5 fixture tables "
+             "tag; TRANSPORT FAULTS on a 4-commit chain (receiver empty / holding a prefix; packfile size 1 / default; table "
+             "batches 0/1): one response of the exchange lost entirely after the server processed the request - the answer "
+             "to GET /refs/, the first JSON answer, the answer of the packfile exchange carrying the j-th commit for every j "
+             "(and one past the end) - as a connection abort (panic(http.ErrAbortHandler)) and as an HTTP/2 stream reset "
+             "(TLS test server; fetch.Fetch retries), for fetch (96) and push (48); BATCH BOUNDARIES: chains transferring "
+             "n = 257 (quick) / 255, 256, 257, 513 (thorough) commits each with its own 1-row table, every 7th table "
+             "already on the receiver, push (client offers tables in batches of 256) and fetch (server batches of 256), and "
+             "n local-only commits unknown to the server so that popHaves needs several 256-have round trips; "
+             "random (220 quick / 5000 thorough): a common random history of 0..5 commits (merges, 5 fixture tables "
              "incl. a 300-row multi-block one) then diverged {equal, local ahead, local behind, diverged, unrelated}, 4 "
              "timestamp regimes, 1-4 refs per side; fetch: glob heads spec (+ tags spec), per-refspec and global force, "
              "depth {0,0,1,2}, k {256 via fetch.Fetch; 1,2,5 via UploadPackSession then fetch.Fetch}, server max packfile "
@@ -37,6 +47,8 @@ CFG = dict(
              "distinct = distinct case text; all cases non-trivial",
         trusted=["reference server harness/c09_server.go incl. its ref update rule R1-R4 and the 'report once, keep the "
                  "session open' behaviour of receive-pack (see the header of that file and of props/C09.v)",
+                 "fault layer of the reference server (one response lost after the request was processed; a request naming "
+                 "wants while a session exists starts a new session)",
                  "fixture tables: a table number stands for the table object, its blocks, block indices and table index "
                  "(the oracle checks all of them are present and byte-identical to the sender's)",
                  "for k != 256 the harness runs apiclient.UploadPackSession itself and then fetch.Fetch (which finds "
